@@ -33,4 +33,44 @@ theorem c14_failed_send_is_partial (total k : Nat) (h : 1 ≤ k ∧ k ≤ total)
 /-- the statement is about the fact: a loop that does not return writes the rest and reports success -/
 example : sendFailOnce false 3 1 = (false, 2) := by decide
 
+
+/-! ### the cleanup after a failed callback ends with the transport
+
+`NextPackageUntil`, after the consumer's callback failed on a package that is not the final DONE, consumes
+the rest of the response so that nothing is left over for the next one. What `NextPackage` hands that loop,
+one result per call: a package, the final DONE, or an error (of the channel, the connection — a dead
+transport reports one on every call, `c14_dead_transport_keeps_failing` — or a context). -/
+
+inductive NpEv where
+  | pkg | final | err
+deriving Repr, DecidableEq
+
+/-- the cleanup loop over the results of its `NextPackage` calls: `some k` = it ends with the k-th call,
+`none` = it is still running when the results are used up (it waits for the next one). Without the
+regenerated fact an error does not end it. -/
+def cleanup (endsAtError : Bool) : List NpEv → Nat → Option Nat
+  | [], _ => none
+  | .final :: _, k => some (k + 1)
+  | .err :: rest, k => if endsAtError then some (k + 1) else cleanup endsAtError rest (k + 1)
+  | .pkg :: rest, k => cleanup endsAtError rest (k + 1)
+
+/-- **the consumer whose callback failed gets its error back when the transport ends**: if an error is
+among the results, the cleanup ends — with the call that returns the first error or final DONE, at the
+latest -/
+theorem c14_cleanup_ends_with_transport (evs : List NpEv) (k : Nat) (h : NpEv.err ∈ evs) :
+    ∃ n, cleanup Gen.Shape.untilCleanupEndsAtFirstError evs k = some n ∧ n ≤ k + evs.length := by
+  induction evs generalizing k with
+  | nil => simp at h
+  | cons e rest ih =>
+    cases e with
+    | final => exact ⟨k + 1, by simp [cleanup], by simp⟩
+    | err => exact ⟨k + 1, by simp [cleanup, Gen.Shape.untilCleanupEndsAtFirstError], by simp⟩
+    | pkg =>
+      have h' : NpEv.err ∈ rest := by simpa using h
+      obtain ⟨n, hn, hle⟩ := ih (k + 1) h'
+      exact ⟨n, by simpa [cleanup] using hn, by simp only [List.length_cons]; omega⟩
+
+/-- the statement is about the fact: a loop that goes on after errors never ends on a dead transport -/
+example : cleanup false [.pkg, .err, .err, .err] 0 = none := by decide
+
 end Dblib.Props.C14
